@@ -301,3 +301,61 @@ func rank_alt2(matrix [][]int, m int) int {
 	}
 	return r
 }
+
+// linearComplexity_alt1: parity and halving written with & and >>. Equal to the primary formulation because the
+// discrepancy d is a sum of products of 0/1 values (b2i results and coefficients kept in {0,1} by the reduction),
+// C[i]+P[i] is a sum of two such values, and N counts up from 0: all three are non-negative, where x%2 == x&1 and
+// x/2 == x>>1.
+func linearComplexity_alt1(a []bool, M int) int {
+	N := 0
+	L := 0
+	m := -1
+	B := make([]int, M)
+	C := make([]int, M)
+	P := make([]int, M+1)
+	T := make([]int, M)
+	for i := 0; i < M; i++ {
+		B[i] = 0
+		C[i] = 0
+		T[i] = 0
+		P[i] = 0
+	}
+	C[0] = 1
+	B[0] = 1
+	for N < M {
+		d := 0
+		if a[N] {
+			d = 1
+		}
+		for i := 1; i <= L; i++ {
+			bit := 0
+			if a[N-i] {
+				bit = 1
+			}
+			d += C[i] * bit
+		}
+		if d&1 == 1 {
+			for i := 0; i < M; i++ {
+				T[i] = C[i]
+				P[i] = 0
+			}
+			for j := 0; j < M; j++ {
+				if B[j] == 1 {
+					P[j+N-m] = 1
+				}
+			}
+			for i := 0; i < M; i++ {
+				C[i] = (C[i] + P[i]) & 1
+			}
+			if L <= N>>1 {
+				L = N + 1 - L
+				m = N
+				for i := 0; i < M; i++ {
+					B[i] = T[i]
+				}
+			}
+		}
+		N++
+	}
+	return L
+}
